@@ -66,7 +66,8 @@ def bounded(tier, seed):
             fi = os.path.join(root, ".flowmarkignore")
             fl = [l for l in open(fi).read().splitlines() if l.strip()] if os.path.exists(fi) else None
             cfg = rnd.choice([{}, {"extend_include": ["*.mdx"]}, {"exclude": ["docs/"]}, {"extend_exclude": ["sub/", "deep/"]},
-                              {"files_max_size": LIMIT}, {"files_max_size": 0}, {"include": ["*.txt"]}])
+                              {"files_max_size": LIMIT}, {"files_max_size": 0}, {"include": ["*.txt"]},
+                              {"extend_exclude": ["docs/sub/", "src/deep/", "sub/docs/", "deep/src/", "a b/sub/", "docs/src/"]}])
             want = reference(root, cfg, fl)
             r = FileResolver(FileResolverConfig(respect_gitignore=False, **cfg))
             got = [str(p) for p in r.resolve([root])]
@@ -87,9 +88,17 @@ def bounded(tier, seed):
                 a = [str(p) for p in FileResolver(FileResolverConfig(respect_gitignore=False, **cfg)).resolve(args)]
                 b = [str(p) for p in FileResolver(FileResolverConfig(respect_gitignore=False, **cfg)).resolve(list(reversed(args)) + files)]
                 evals += 2
+                # the same files under non-canonical spellings (through '..', relative, through './'): no file twice
+                odd = [os.path.join(os.path.dirname(f), "..", os.path.basename(os.path.dirname(f)), os.path.basename(f)) for f in files] \
+                    + [os.path.relpath(f, root) for f in files] + ["./" + os.path.relpath(f, root) for f in files]
+                c = [str(p) for p in FileResolver(FileResolverConfig(respect_gitignore=False, **cfg)).resolve(odd + args)]
+                d = [str(p) for p in FileResolver(FileResolverConfig(respect_gitignore=False, **cfg)).resolve(args + odd)]
+                evals += 2
             from pathlib import Path as _P
             if a != b or a != [str(x) for x in sorted({_P(x) for x in a})]:
                 viol.append({"clause": "order_independent", "input": inp, "got": [a, b]})
+            if c != d or len({os.path.realpath(x) for x in c}) != len(c) or any(os.path.realpath(x) != x for x in c if not os.path.islink(x)):
+                viol.append({"clause": "no_file_twice_canonical", "input": dict(inp, args=odd), "got": [c, d]})
             # explicit files bypass exclusions and ignore rules (not the size limit) unless force_exclude
             for f in files:
                 one = FileResolver(FileResolverConfig(respect_gitignore=False, files_max_size=cfg.get("files_max_size", 1048576))).resolve([f])
@@ -118,8 +127,8 @@ def bounded(tier, seed):
             shutil.rmtree(base, ignore_errors=True)
     return {"evaluations": evals, "distinct_nontrivial": len(distinct), "violations": viol, "samples": samples,
             "rule": "seeded trees (directories/files from fixed pools, nesting <= 3, symlinks to a file and a directory outside the tree and "
-                    "to a file inside, file sizes around the limit, a root .flowmarkignore) x 7 settings: traversal result == reference "
-                    "walk written from the property; sorted/distinct/absolute; same result for permuted and duplicated arguments; "
+                    "to a file inside, file sizes around the limit, a root .flowmarkignore) x 8 settings (incl. multi-segment user exclusions): traversal result == reference "
+                    "walk written from the property; sorted/distinct/absolute; same result for permuted and duplicated arguments, also when files are named again through '..' / relative spellings (no file twice, canonical paths); "
                     "explicit files bypass exclusions but not the size limit; glob results pass the same filters; distinct = distinct "
                     "reference results",
             "exhaustive": False, "bound": "%d trees" % n}
